@@ -236,37 +236,6 @@ fn pair_cells() -> Vec<Cell> {
     v
 }
 
-fn stats_to_json(st: &Stats) -> Json {
-    json!({
-        "evaluations": st.evaluations, "traces": st.traces, "transitions": st.transitions, "states": st.states.len() as u64 + st.states_extra,
-        "outcomes": st.outcomes, "samples": st.samples,
-        "violations": st.violations.iter().map(|v| json!({"class": v.class, "detail": v.detail, "case": v.case})).collect::<Vec<_>>(),
-    })
-}
-
-fn stats_from_json(j: &Json) -> Stats {
-    let mut out = Stats::new();
-    out.evaluations = j["evaluations"].as_u64().unwrap_or(0);
-    out.traces = j["traces"].as_u64().unwrap_or(0);
-    out.transitions = j["transitions"].as_u64().unwrap_or(0);
-    out.states_extra = j["states"].as_u64().unwrap_or(0);
-    out.nontrivial_extra = j["states"].as_u64().unwrap_or(0);
-    if let Some(o) = j["outcomes"].as_object() {
-        for (k, v) in o {
-            out.outcomes.insert(k.clone(), v.as_u64().unwrap_or(0));
-        }
-    }
-    if let Some(s) = j["samples"].as_array() {
-        out.samples = s.clone();
-    }
-    if let Some(vs) = j["violations"].as_array() {
-        for v in vs {
-            out.violate(v["class"].as_str().unwrap_or(""), v["detail"].as_str().unwrap_or(""), v["case"].clone());
-        }
-    }
-    out
-}
-
 fn run_half(ctx: &Ctx) -> Stats {
     let pki = Pki::new();
     let cs = cells(ctx);
@@ -295,7 +264,7 @@ fn run_half(ctx: &Ctx) -> Stats {
         match text.lines().find(|l| l.starts_with("PAIR-REPORT ")) {
             Some(line) => {
                 let j: Json = serde_json::from_str(&line["PAIR-REPORT ".len()..]).unwrap_or(Json::Null);
-                st.merge(stats_from_json(&j));
+                st.merge(Stats::from_json(&j));
             }
             None => {
                 eprintln!("MACHINERY-ERROR pair process ({}, {}) produced no report", a, b);
@@ -329,13 +298,13 @@ pub fn run(ctx: &Ctx) -> ! {
         for (k, n) in std::mem::take(&mut st.outcomes) {
             st.outcomes.insert(format!("pair:{}", k), n);
         }
-        println!("PAIR-REPORT {}", stats_to_json(&st));
+        println!("PAIR-REPORT {}", Stats::to_json(&st));
         std::process::exit(0);
     }
     // half mode: run this backend's cells, print a JSON report, exit
     if ctx.extra.iter().any(|a| a == "--half") {
         let st = run_half(ctx);
-        println!("HALF-REPORT {}", stats_to_json(&st));
+        println!("HALF-REPORT {}", Stats::to_json(&st));
         std::process::exit(0);
     }
     let mut rep = Report::new(
@@ -379,7 +348,7 @@ pub fn run(ctx: &Ctx) -> ! {
         std::process::exit(2)
     });
     let j: Json = serde_json::from_str(&line["HALF-REPORT ".len()..]).unwrap();
-    let st = stats_from_json(&j);
+    let st = Stats::from_json(&j);
     rep.section(if crate::FLAVOUR == "rustls" { "native-tls" } else { "rustls" }, st);
     rep.finish()
 }
